@@ -206,7 +206,7 @@ func (g *fieldsGen) initExpr(earlier []string) (expr string, arrow bool) {
 
 // genFieldsClass draws one class. baseInst / baseStat are the public names the base class provides (readable
 // through this in initialisers).
-func (g *fieldsGen) genFieldsClass(name, extends string, define bool, baseInst, baseStat []string, ctorArgsUsed int) (*classIR, []string) {
+func (g *fieldsGen) genFieldsClass(name, extends string, define bool, baseInst, baseStat []string) (*classIR, []string) {
 	c := &classIR{Name: name, Extends: extends}
 	var obs []string // statements that observe an instance `o` of the class
 	useProps := g.chance("paramprops", 22)
@@ -275,9 +275,9 @@ func (g *fieldsGen) genFieldsClass(name, extends string, define bool, baseInst, 
 				}
 				if arrow && !private {
 					if static {
-						obs = append(obs, fmt.Sprintf("log(\"arrow %s\", %s%s());", n.ts[:1], name, n.acc))
+						obs = append(obs, fmt.Sprintf("log(\"arrow %s\", %s%s());", strings.Trim(n.acc, ".[]\""), name, n.acc))
 					} else {
-						obs = append(obs, fmt.Sprintf("log(\"arrow %s\", o%s());", n.ts[:1], n.acc))
+						obs = append(obs, fmt.Sprintf("log(\"arrow %s\", o%s());", strings.Trim(n.acc, ".[]\""), n.acc))
 					}
 				}
 			}
@@ -416,12 +416,12 @@ func genFieldsCase(rt *rapid.T) ClassCase {
 	if derived {
 		ext, bi, bs = "Base0", baseInst, baseStat
 	}
-	c0, obs0 := g.genFieldsClass("D0", ext, define, bi, bs, 0)
+	c0, obs0 := g.genFieldsClass("D0", ext, define, bi, bs)
 	feats := c0.features()
 	classes := []*classIR{c0}
 	observations := [][]string{obs0}
 	if g.chance("second", 30) {
-		c1, obs1 := g.genFieldsClass("D1", "D0", define, nil, nil, 0)
+		c1, obs1 := g.genFieldsClass("D1", "D0", define, nil, nil)
 		classes = append(classes, c1)
 		observations = append(observations, obs1)
 		feats = append(feats, c1.features()...)
